@@ -80,22 +80,32 @@ def build_model_driver():
     return lake_build(['pgtmodel'])
 
 
+def prop_files(prop):
+    """PGT/Props/<prop>.lean and its continuation files PGT/Props/<prop>_*.lean (theorems that need proof modules which
+    themselves import the base file)"""
+    base = f'{LEAN}/PGT/Props/{prop}.lean'
+    return ([base] if os.path.exists(base) else []) + sorted(glob.glob(f'{LEAN}/PGT/Props/{prop}_*.lean'))
+
+
 def audit(prop):
     """#print axioms for every theorem of PGT.Props.<prop>; returns (theorems: {name: [axioms]}, error)"""
-    path = f'{LEAN}/PGT/Props/{prop}.lean'
-    if not os.path.exists(path):
+    paths = prop_files(prop)
+    if not paths:
         return {}, 'no theorem file'
-    src = open(path).read()
-    # strip comments
-    code = re.sub(r'/-.*?-/', '', src, flags=re.S)
-    code = re.sub(r'--.*', '', code)
-    names = re.findall(r'^\s*theorem\s+([A-Za-z0-9_.\']+)', code, flags=re.M)
-    banned = [w for w in ('sorry', 'admit', 'native_decide', 'implemented_by', 'unsafe ', 'maxHeartbeats 0') if w in code]
-    if re.search(r'^\s*axiom\s', code, flags=re.M):
-        banned.append('axiom')
-    ns = re.search(r'^namespace\s+([A-Za-z0-9_.]+)', code, flags=re.M)
-    prefix = (ns.group(1) + '.') if ns else ''
-    aud = f'import PGT.Props.{prop}\n' + ''.join(f'#print axioms {prefix}{n}\n' for n in names)
+    names, banned, imports = [], [], []
+    for path in paths:
+        src = open(path).read()
+        # strip comments
+        code = re.sub(r'/-.*?-/', '', src, flags=re.S)
+        code = re.sub(r'--.*', '', code)
+        ns = re.search(r'^namespace\s+([A-Za-z0-9_.]+)', code, flags=re.M)
+        prefix = (ns.group(1) + '.') if ns else ''
+        names += [prefix + n for n in re.findall(r'^\s*theorem\s+([A-Za-z0-9_.\']+)', code, flags=re.M)]
+        banned += [w for w in ('sorry', 'admit', 'native_decide', 'implemented_by', 'unsafe ', 'maxHeartbeats 0') if w in code]
+        if re.search(r'^\s*axiom\s', code, flags=re.M):
+            banned.append('axiom')
+        imports.append('PGT.Props.' + os.path.basename(path)[:-5])
+    aud = ''.join(f'import {m}\n' for m in imports) + ''.join(f'#print axioms {n}\n' for n in names)
     tmp = f'{WORK}/audit_{prop}.lean'
     open(tmp, 'w').write(aud)
     rc, out, err = sh(['lake', 'env', 'lean', tmp], cwd=LEAN, env=os.environ)
